@@ -37,6 +37,7 @@ def bootstrap():
     import logging
 
     logging.getLogger().setLevel(logging.WARNING)
+    logging.getLogger().addHandler(logging.NullHandler())  # keep flodym's warnings off stderr
     import flodym
 
     here = os.path.dirname(os.path.abspath(flodym.__file__))
